@@ -296,7 +296,7 @@ class LocationTable:
             return self.loc_t.get(gn_address, None)
         return None
 
-    def ensure_entry(self, gn_address: GNAddress) -> LocationTableEntry:
+    def ensure_entry(self, gn_address: GNAddress, ls_pending: bool = False) -> LocationTableEntry:
         """
         Gets or creates a LocTE for gn_address without modifying its fields.
 
@@ -306,6 +306,10 @@ class LocationTable:
         ----------
         gn_address : GNAddress
             GN address.
+        ls_pending : bool
+            Value of the LS_PENDING flag of a newly created entry.  The flag is set before the
+            entry becomes visible in the table, so that no other thread can take the empty
+            placeholder for an entry with a known position.
 
         Returns
         -------
@@ -316,6 +320,7 @@ class LocationTable:
             entry = self.loc_t.get(gn_address, None)
             if entry is None:
                 entry = LocationTableEntry(self.mib)
+                entry.ls_pending = ls_pending
                 self.loc_t[gn_address] = entry
         return entry
 
